@@ -8,6 +8,7 @@ on every run and connected to the model here.
 -/
 import RqModel.Model.Marshal
 import RqModel.Gen.Marshal
+import RqModel.Gen.Gunzip
 import RqModel.Lemmas.MarshalInst
 namespace C29
 open RqModel.Marshal
@@ -68,6 +69,35 @@ the batch and in whatever order the batch is encoded -/
 theorem batch_entries_independent (m : Marshaler) (C : Codecs) (cs : List Cmd) (i : Nat) (h : i < cs.length) :
     (cs.map (encode m C))[i]'(by simpa using h) = encode m C cs[i] := by
   simp
+
+/-! ### the gzip law is unbounded
+
+`Gz.Lawful` says `uncomp (comp b) = some b` for EVERY `b`: there is no bound on how much a
+compressed entry may inflate to. A decoder that caps the output at `ratio × compressed size`
+is not lawful as soon as some payload compresses better than that (DEFLATE reaches about
+1032:1; Go's compress/flate passes 1000:1 on long uniform runs). -/
+
+/-- `gzUncompress` with an inflation cap: at most `ratio × len(b)` bytes are read -/
+def capGz (G : Gz) (ratio : Nat) : Gz :=
+  { comp := G.comp, uncomp := fun b => (G.uncomp b).map (fun u => u.take (ratio * b.length)) }
+
+/-- **ratio_cap_breaks_law.** Any inflation cap turns a lawful gzip into an unlawful one on every
+payload that compresses better than the cap: such an entry would be truncated on decode. -/
+theorem ratio_cap_breaks_law (G : Gz) (hG : G.Lawful) (ratio : Nat) (x : Bytes)
+    (hx : ratio * (G.comp x).length < x.length) : ¬ (capGz G ratio).Lawful := by
+  intro h
+  have := h x
+  simp only [capGz, hG x, Option.map_some, Option.some.injEq] at this
+  have hl := congrArg List.length this
+  simp only [List.length_take] at hl
+  omega
+
+open RqModel.Gen.Gunzip in
+/-- **gunzip_unbounded_fact.** In the CURRENT source `gzUncompress` applies `io.ReadAll` directly to
+the gzip reader: no `io.LimitReader` / `CopyN` caps the inflated size. -/
+theorem gunzip_unbounded_fact :
+    gzUncompressCalls = ["NewReader", "NewReader", "ReadAll", "Close"] ∧
+    gzUncompressReadAllArg = "gz" ∧ gzUncompressHasLimit = false := by decide
 
 /-! ### compression rule -/
 
